@@ -47,7 +47,22 @@ macro_rules! val_str_int {
         impl Scalar for $t { const NAME: &'static str = stringify!($t); }
     )*};
 }
-val_str_int!(u32, u64, u128, usize, i8, i16, i32, i64, i128, isize);
+val_str_int!(u32, u64, u128, i8, i16, i32, i64, i128, isize);
+
+// usize doubles as an index type: small values travel as JSON numbers (so that the spec's index
+// containers can compute with them), large ones as decimal strings
+impl Val for usize {
+    fn from_json(v: &Value) -> Self {
+        match v {
+            Value::String(s) => s.parse::<usize>().expect("parse usize"),
+            _ => v.as_u64().expect("usize") as usize,
+        }
+    }
+    fn to_json(&self) -> Value {
+        if *self <= i32::MAX as usize { json!(*self) } else { json!(self.to_string()) }
+    }
+}
+impl Scalar for usize { const NAME: &'static str = "usize"; }
 
 impl Val for () {
     fn from_json(_: &Value) -> Self {}
